@@ -1,5 +1,6 @@
 import CedarVerif.Lemmas.EstPolicy
 import CedarVerif.Lemmas.EstTrees
+import CedarVerif.Lemmas.EstTreesPolicy
 /-
 C06 — structured formats (JSON/EST, PST, protobuf) are lossless.
 
@@ -7,9 +8,29 @@ Model: `Cedar.Est` (CedarVerif/Cedar/Est/{Json,Est,Policy}.lean) mirrors est/exp
 est/scope_constraints.rs, est/annotation.rs and entities/json/value.rs.  The theorems below are about that
 model; `./check C06` ties it to the code (`(est to)`, `(est of)`, `(estpol to)` lines) and checks the
 property itself on the implementation (JSON, PST, protobuf, policy sets with links, responses, printed text).
+PST / protobuf: message-tree models, expression level in Cedar/Est/Trees.lean, policy level (templates, scope
+constraints with slots, clauses, annotations, static / linked policies, link records, protobuf policy sets) in
+Lemmas/EstTreesPolicyDefs.lean (hand mirrors of pst/{policy,constraints,ast_conversions}.rs and proto/policy.rs;
+no compiled correspondence stream reads them, their round trips are sampled on the implementation).
+
+What is proved (all `theorem`s, no `_partial` left at policy level):
+  JSON      est_roundtrip, est_roundtrip_list, est_policy_roundtrip, est_link_roundtrip, est_eval
+  PST       pst_roundtrip_partial (expressions), pst_template_roundtrip (= `FullStatementTreeRoundtrip` for PST:
+            effect, scope constraints with slots, clauses, annotations), pst_template_encodable (when `to_pst`
+            succeeds), pst_clauses_in_order (several when/unless clauses: JSON and PST agree, in order),
+            pst_policy_roundtrip (static / linked `pst::Policy`), pst_link_roundtrip (`TemplateLink`)
+  protobuf  proto_roundtrip_partial (expressions), proto_template_roundtrip (= `FullStatementTreeRoundtrip` for
+            protobuf, plus encodability), proto_link_roundtrip (`models::Policy`), proto_link_roundtrip_anyorder /
+            proto_link_lookup (the same without the list-order hypothesis, up to the order of the slot-value list),
+            proto_policyset_roundtrip (templates + links)
+Hypotheses that are needed and why (each with a checked counterexample below): a condition with a wrong-arity /
+unknown extension call has no PST (finding C06-pst-arity); a static `ast::Policy` carries no link id / slot values
+(Rust invariant); the association list standing for the slot-value `HashMap` lists `?principal` first.
 
 Not modelled (sampled only): serde / serde_json (JSON text <-> JSON value), prost's byte encoding, the Cedar
-text printer and parser (the "text it prints as" half of the last sentence is checked on the implementation).
+text printer and parser (the "text it prints as" half of the last sentence is checked on the implementation),
+the api-level `pst::PolicySet` (three maps keyed by id around the objects modelled here), `pst` <-> `est`
+conversions (pst/est_conversions.rs).
 -/
 namespace Cedar.C06
 open Cedar Cedar.Est
@@ -62,7 +83,8 @@ def FullStatementEvalAsPrintedText (print : Template → String) (parse : String
 /-- PST round trip on the tree model, expression level: whenever `to_pst` succeeds on a well-formed expression,
 `from_pst` of the result is the expression itself. (`to_pst` fails exactly when the tree contains a call that is
 not a unary/binary extension operator — unknown name or wrong arity: `Pst.ofAst`.)
-`_partial`: expressions only; PST policies, templates, `Clause` lists and `TemplateLink`s are not modelled. -/
+`_partial`: expressions only; PST templates, `Clause` lists, policies and `TemplateLink`s: `pst_template_roundtrip`,
+`pst_clauses_in_order`, `pst_policy_roundtrip`, `pst_link_roundtrip` below. -/
 theorem pst_roundtrip_partial (e : Expr) (p : Pst.PExpr) (h : WF e) (hp : Pst.ofAst e = .ok p) :
     Pst.toAst p = e := by
   simp only [Pst.ofAst] at hp
@@ -74,17 +96,123 @@ theorem pst_roundtrip_partial (e : Expr) (p : Pst.PExpr) (h : WF e) (hp : Pst.of
 
 /-- protobuf round trip on the message-tree model, expression level: a well-formed expression is encodable
 (the `Unknown` panic site is not reached) and decoding its message tree yields the expression itself.
-`_partial`: expressions only (policies, templates, policy sets with links are sampled, not modelled); prost's
-byte encoding is not modelled. -/
+`_partial`: expressions only (templates, link messages, policy sets: `proto_template_roundtrip`,
+`proto_link_roundtrip`, `proto_policyset_roundtrip` below); prost's byte encoding is not modelled. -/
 theorem proto_roundtrip_partial (e : Expr) (h : WF e) :
     ∃ m, Proto.ofAst e = some m ∧ Proto.toAst m = .ok e := by
   refine ⟨Proto.ofAstT e, ?_, Proto.toAst_ofAstT e h⟩
   simp [Proto.ofAst, Proto.noPanic e h]
 
-/-- Full statements kept visible: the PST / protobuf round trips of whole policies, templates and policy sets
-with links, over models `M` of those formats that this development does not contain. -/
+/-- Full statement of the policy-level tree round trips, kept visible: over a tree format `Tree` with encoder
+`ofT` (`none` = no tree: conversion error or encoder panic) and decoder `toT`, every tree written for a well-formed
+template reads back as that template.  Proved for both formats: `pst_template_roundtrip`,
+`proto_template_roundtrip`. -/
 def FullStatementTreeRoundtrip (Tree : Type) (ofT : Template → Option Tree) (toT : Tree → R Template) : Prop :=
   ∀ t, WFT t → ∀ m, ofT t = some m → toT m = .ok t
+
+/-! ### PST, policy level -/
+
+/-- PST round trip of policies and templates (`TryFrom<ast::Template> for pst::Template` and back): effect,
+principal / action / resource constraints with their slots, the condition as a `when` clause, annotations. -/
+theorem pst_template_roundtrip :
+    FullStatementTreeRoundtrip Pst.PTemplate (fun t => (Pst.ofTemplate t).toOption) Pst.toTemplate := by
+  intro t h m hm
+  cases hr : Pst.ofTemplate t with
+  | error e => simp [hr, Except.toOption] at hm
+  | ok m' =>
+    simp [hr, Except.toOption] at hm
+    subst hm
+    exact Pst.toTemplate_ofTemplate t h m' hr
+
+/-- `to_pst` succeeds on a well-formed template exactly when its condition has a PST (every extension call is a
+unary / binary extension operator with the right number of arguments); slots / `Unknown` never block it. -/
+theorem pst_template_encodable (t : Template) (h : WFT t) :
+    (∃ m, Pst.ofTemplate t = .ok m) ↔ (∀ e, t.cond = some e → (Pst.ofAstT e).hasBad = false) :=
+  Pst.ofTemplate_isOk t h
+
+/-- Conditions in order: a list of `when` / `unless` clauses written as the JSON `conditions` array and as PST
+`clauses` reads back, in both formats, as the same list of expressions in the same order (`unless e` as `!e`),
+hence (`foldConds`) as the same condition `c1 && (c2 && (…))`. -/
+theorem pst_clauses_in_order (cs : List Pst.SrcClause) (h : ∀ c ∈ cs, WF c.2 ∧ exprHasSlot c.2 = false) :
+    readClauses (cs.map Pst.SrcClause.json) = .ok (cs.map Pst.SrcClause.denote)
+    ∧ (cs.map Pst.SrcClause.pst).map Pst.clauseExpr = cs.map Pst.SrcClause.denote
+    ∧ ∀ m : Pst.PTemplate, m.clauses = cs.map Pst.SrcClause.pst → ∀ t, Pst.toTemplate m = .ok t →
+        t.cond = foldConds (cs.map Pst.SrcClause.denote) := by
+  refine ⟨Pst.readClauses_srcJson cs h, Pst.clauseExpr_srcPst cs (fun c hc => (h c hc).1), ?_⟩
+  intro m hm t ht
+  have hcl := Pst.clauseExpr_srcPst cs (fun c hc => (h c hc).1)
+  simp only [Pst.toTemplate, bind, Except.bind, hm, hcl] at ht
+  cases ha : Pst.toAnnotations m.annotations with
+  | error e => simp [ha] at ht
+  | ok a =>
+    cases hp : Pst.toScope .principal m.principal with
+    | error e => simp [ha, hp] at ht
+    | ok p =>
+      cases hac : Pst.toAction m.action with
+      | error e => simp [ha, hp, hac] at ht
+      | ok ac =>
+        cases hre : Pst.toScope .resource m.resource with
+        | error e => simp [ha, hp, hac, hre] at ht
+        | ok r =>
+          simp [ha, hp, hac, hre] at ht
+          rw [← ht]
+
+/-- PST round trip of `ast::Policy` ↔ `pst::Policy` (static policy, or template body + slot values + link id).
+`StaticInv` is the Rust invariant that a static policy has neither a link id nor slot values. -/
+theorem pst_policy_roundtrip (p : Pst.AstPolicy) (h : WFT p.template) (hi : Pst.StaticInv p) (q : Pst.PPolicy)
+    (hq : Pst.ofPolicy p = .ok q) : Pst.toPolicy q = .ok p :=
+  Pst.toPolicy_ofPolicy p h hi q hq
+
+/-- PST link records (`pst::TemplateLink`: template id, new id, slot values) -/
+theorem pst_link_roundtrip (l : Linked) : Pst.toLink (Pst.ofLink l) = l := rfl
+
+/-! ### protobuf, policy level -/
+
+/-- protobuf round trip of templates / static policy bodies (`models::TemplateBody`): a well-formed template is
+encodable (no `Unknown` panic) and its message decodes to the template itself: effect, constraints with slots,
+annotations, condition. -/
+theorem proto_template_roundtrip :
+    FullStatementTreeRoundtrip Proto.TemplateBodyMsg Proto.ofTemplate Proto.toTemplate
+    ∧ ∀ t, WFT t → ∃ m, Proto.ofTemplate t = some m := by
+  constructor
+  · intro t h m hm
+    obtain ⟨m', hm', hrt⟩ := Proto.toTemplate_ofTemplate t h
+    rw [hm'] at hm
+    cases hm
+    exact hrt
+  · intro t h
+    obtain ⟨m, hm, _⟩ := Proto.toTemplate_ofTemplate t h
+    exact ⟨m, hm⟩
+
+/-- protobuf link records (`models::Policy`: template id, link id, `is_template_link`, the two slot values), decoded
+by `reify_template_link` / `reify_static_policy` against the templates `ts` and the ids `seen` so far. -/
+theorem proto_link_roundtrip (ts : List (String × Template)) (seen : List String) (p : Proto.PolicyRef)
+    (h : Proto.WFPolicyRef ts seen p) : Proto.toPolicy ts seen (Proto.ofPolicy p) = .ok p :=
+  Proto.toPolicy_ofPolicy ts seen p h
+
+/-- … and without the list-order hypothesis (`WFPolicyRef.canon`): the slot values of the message are those of the
+policy in the order `?principal`, `?resource`, and bind every slot to the same entity. -/
+theorem proto_link_lookup (p : Proto.PolicyRef) (h : ∀ b ∈ p.env, validName b.2.ty = true) :
+    Proto.slotValues (Proto.ofPolicy p) = .ok (Proto.canonEnv p.env)
+    ∧ ∀ s, Proto.envGet (Proto.canonEnv p.env) s = Proto.envGet p.env s :=
+  ⟨Proto.slotValues_ofPolicy p h, Proto.envGet_canonEnv p.env⟩
+
+/-- the link round trip with no hypothesis on the order of the slot-value list: the decoded policy is the original
+one with its slot values listed `?principal` first (the same `HashMap`: `proto_link_lookup`). -/
+theorem proto_link_roundtrip_anyorder (ts : List (String × Template)) (seen : List String) (p : Proto.PolicyRef)
+    (hn : ∀ b ∈ p.env, validName b.2.ty = true)
+    (hb : ∃ t, Proto.tlookup ts p.templateId = some t ∧ checkBinding t p.env = true)
+    (hs : p.link = none → p.env = [])
+    (hf : seen.contains p.id = false)
+    (hl : ∀ id, p.link = some id → Proto.tlookup ts id = none) :
+    Proto.toPolicy ts seen (Proto.ofPolicy p) = .ok { p with env := Proto.canonEnv p.env } :=
+  Proto.toPolicy_ofPolicy_canon ts seen p hn hb hs hf hl
+
+/-- protobuf policy sets (`models::PolicySet`: templates + one `Policy` message per static or linked policy):
+a well-formed set is encodable and decodes to itself, templates and links in order. -/
+theorem proto_policyset_roundtrip (s : Proto.AstSet) (h : Proto.WFSet s) :
+    ∃ m, Proto.ofSet s = some m ∧ Proto.toSet m = .ok s :=
+  Proto.toSet_ofSet s h
 
 /-! ### non-vacuity -/
 
@@ -158,5 +286,175 @@ def l0 : Linked := { id := "link1", templateId := "t0", env := [(.principal, ⟨
 
 example : toLinked (linkJson l0) = .ok l0 :=
   est_policy_roundtrip.2 l0 ⟨by intro b hb; simp [l0] at hb; rcases hb with rfl | rfl <;> decide, by decide⟩
+
+/-! ### policy-level trees: non-vacuity and the counterexamples behind the hypotheses -/
+
+/-- `e0` with `resource` in place of the slot (a policy condition may not contain slots) -/
+def e1 : Expr :=
+  .or (.and (.and (.is (.var .principal) "User") (.binaryApp .mem (.var .principal) (.lit (.entityUID ⟨"NS::Group", "a"⟩))))
+            (.unaryApp .not (.unaryApp .not (.binaryApp .less (.getAttr (.var .context) "n") (.lit (.int 3))))))
+      (.ite (.like (.lit (.string "abc")) [.char 'a', .star])
+            (.call "isInRange" [.call "ip" [.lit (.string "10.0.0.1")], .call "ip" [.lit (.string "10.0.0.0/8")]])
+            (.hasAttr (.record [("a b", .set [.lit (.bool true)]), ("c", .var .resource)]) "c"))
+
+set_option linter.defProp false in
+def e1_wf : WF e1 := by
+  simp [e1, WF, WFs, WFKVs, isBoolLit, SortedKeys, inI64, i64Min, i64Max]
+  decide
+
+/-- `t0` with the condition `e1`: both slots, an action list, `is … in`, two annotations (one without value) -/
+def t1 : Template := { t0 with cond := some e1 }
+
+set_option linter.defProp false in
+def t1_wf : WFT t1 where
+  principal := t0_wf.principal
+  action := t0_wf.action
+  resource := t0_wf.resource
+  annKeys := t0_wf.annKeys
+  annSorted := t0_wf.annSorted
+  cond := by
+    intro e he
+    simp [t1] at he
+    subst he
+    exact ⟨e1_wf, by rfl⟩
+
+example : ∃ m, Pst.ofTemplate t1 = .ok m ∧ Pst.toTemplate m = .ok t1 := by
+  obtain ⟨m, hm⟩ := (pst_template_encodable t1 t1_wf).2 (by intro e he; simp [t1] at he; subst he; rfl)
+  exact ⟨m, hm, pst_template_roundtrip t1 t1_wf m (by simp [hm, Except.toOption])⟩
+
+example : ∃ m, Proto.ofTemplate t1 = some m ∧ Proto.toTemplate m = .ok t1 := by
+  obtain ⟨m, hm⟩ := proto_template_roundtrip.2 t1 t1_wf
+  exact ⟨m, hm, proto_template_roundtrip.1 t1 t1_wf m hm⟩
+
+/-- `@id("x") permit(…) when { c.a } unless { c.b } when { 1 < c.n }`: three clauses, in order, in both formats -/
+example :
+    let cs : List Pst.SrcClause :=
+      [(true, .getAttr (.var .context) "a"), (false, .getAttr (.var .context) "b"),
+       (true, .binaryApp .less (.lit (.int 1)) (.getAttr (.var .context) "n"))]
+    (readClauses (cs.map Pst.SrcClause.json)).map foldConds
+      = .ok (some (.and (.getAttr (.var .context) "a")
+              (.and (.unaryApp .not (.getAttr (.var .context) "b"))
+                    (.binaryApp .less (.lit (.int 1)) (.getAttr (.var .context) "n")))))
+    ∧ foldConds ((cs.map Pst.SrcClause.pst).map Pst.clauseExpr)
+      = some (.and (.getAttr (.var .context) "a")
+              (.and (.unaryApp .not (.getAttr (.var .context) "b"))
+                    (.binaryApp .less (.lit (.int 1)) (.getAttr (.var .context) "n")))) := by
+  intro cs
+  have h := pst_clauses_in_order cs (by
+    intro c hc
+    simp [cs] at hc
+    rcases hc with rfl | rfl | rfl <;> simp [WF, exprHasSlot, inI64, i64Min, i64Max])
+  rw [h.1, h.2.1]
+  exact ⟨rfl, rfl⟩
+
+/-- counterexample (finding C06-pst-arity): a well-formed template whose condition `ip("1.1.1.1").isIpv4(1, 2)`
+(accepted by the parser, an evaluation error) has no PST, so `to_pst` is not total on parsed policies -/
+def tBad : Template :=
+  { t0 with cond := some (.call "isIpv4" [.call "ip" [.lit (.string "1.1.1.1")], .lit (.int 1), .lit (.int 2)]) }
+
+set_option linter.defProp false in
+def tBad_wf : WFT tBad where
+  principal := t0_wf.principal
+  action := t0_wf.action
+  resource := t0_wf.resource
+  annKeys := t0_wf.annKeys
+  annSorted := t0_wf.annSorted
+  cond := by
+    intro e he
+    simp [tBad] at he
+    subst he
+    refine ⟨?_, by rfl⟩
+    simp [WF, WFs, inI64, i64Min, i64Max]
+    decide
+
+example : Pst.ofTemplate tBad = .error .badCall := by rfl
+example : ¬ (∀ t, WFT t → ∃ m, Pst.ofTemplate t = .ok m) := fun h => by
+  obtain ⟨m, hm⟩ := h tBad tBad_wf
+  rw [show Pst.ofTemplate tBad = .error .badCall from rfl] at hm
+  cases hm
+
+/-- a linked policy of `t1` and a static policy -/
+def tS : Template :=
+  { effect := .forbid, principal := .eq (.euid ⟨"User", "bob"⟩), action := .any, resource := .is "Doc",
+    annotations := [], cond := some (.hasAttr (.var .resource) "secret") }
+
+set_option linter.defProp false in
+def tS_wf : WFT tS where
+  principal := by show validName "User" = true; decide
+  action := trivial
+  resource := by show validName "Doc" = true; decide
+  annKeys := by intro kv hkv; simp [tS] at hkv
+  annSorted := trivial
+  cond := by
+    intro e he
+    simp [tS] at he
+    subst he
+    exact ⟨by simp [WF], by rfl⟩
+
+def pLinked : Pst.AstPolicy := { template := t1, link := some "link1", env := l0.env }
+def pStatic : Pst.AstPolicy := { template := tS, link := none, env := [] }
+
+example : ∃ q, Pst.ofPolicy pLinked = .ok q ∧ Pst.toPolicy q = .ok pLinked :=
+  ⟨_, rfl, pst_policy_roundtrip pLinked t1_wf (by intro h; simp [pLinked, t1, t0, Template.slots, ScopeC.hasSlot] at h) _ rfl⟩
+example : ∃ q, Pst.ofPolicy pStatic = .ok q ∧ Pst.toPolicy q = .ok pStatic :=
+  ⟨_, rfl, pst_policy_roundtrip pStatic tS_wf (fun _ => ⟨rfl, rfl⟩) _ rfl⟩
+/-- counterexample: without `StaticInv` (an `ast::Policy` value Rust never builds: a static policy with a link id)
+the link id is lost -/
+example : ∃ q p', Pst.ofPolicy { pStatic with link := some "x" } = .ok q ∧ Pst.toPolicy q = .ok p' ∧ p'.link = none :=
+  ⟨_, _, rfl, rfl, rfl⟩
+
+example : Pst.toLink (Pst.ofLink l0) = l0 := pst_link_roundtrip l0
+
+/-- a protobuf policy set: the template `t1`, the static policy `tS`, one link of `t1` -/
+def s0 : Proto.AstSet :=
+  { templates := [("t1", t1), ("p1", tS)]
+    links := [{ templateId := "p1", link := none, env := [] },
+              { templateId := "t1", link := some "link1", env := l0.env }] }
+
+set_option linter.defProp false in
+def s0_link_wf : Proto.WFPolicyRef s0.templates ["p1"] { templateId := "t1", link := some "link1", env := l0.env } where
+  names := by intro b hb; simp [l0] at hb; rcases hb with rfl | rfl <;> decide
+  canon := by decide
+  binding := ⟨t1, by simp [s0, Proto.tlookup], by decide⟩
+  staticEnv := by intro h; cases h
+  fresh := by decide
+  linkId := by intro id h; cases h; simp [s0, Proto.tlookup]
+
+set_option linter.defProp false in
+def s0_wf : Proto.WFSet s0 where
+  templates := by
+    intro kt hkt
+    simp [s0] at hkt
+    rcases hkt with rfl | rfl
+    · exact t1_wf
+    · exact tS_wf
+  distinct := by decide
+  links := by
+    refine ⟨?_, s0_link_wf, trivial⟩
+    exact { names := by intro b hb; cases hb
+            canon := by decide
+            binding := ⟨tS, by simp [s0, Proto.tlookup], by decide⟩
+            staticEnv := fun _ => rfl
+            fresh := by decide
+            linkId := by intro id h; cases h }
+
+example : Proto.toPolicy s0.templates ["p1"] (Proto.ofPolicy { templateId := "t1", link := some "link1", env := l0.env })
+    = .ok { templateId := "t1", link := some "link1", env := l0.env } :=
+  proto_link_roundtrip _ _ _ s0_link_wf
+example : ∃ m, Proto.ofSet s0 = some m ∧ Proto.toSet m = .ok s0 := proto_policyset_roundtrip s0 s0_wf
+
+/-- counterexample behind `WFPolicyRef.canon`: the same slot values listed `?resource` first come back listed
+`?principal` first — the same map (`proto_link_lookup`), a different association list -/
+def envRev : SlotEnv := [(.resource, ⟨"Doc", "d"⟩), (.principal, ⟨"User", "alice"⟩)]
+example : Proto.toPolicy s0.templates ["p1"] (Proto.ofPolicy { templateId := "t1", link := some "l", env := envRev })
+      = .ok { templateId := "t1", link := some "l", env := [(.principal, ⟨"User", "alice"⟩), (.resource, ⟨"Doc", "d"⟩)] }
+    ∧ Proto.canonEnv envRev ≠ envRev
+    ∧ ∀ s, Proto.envGet (Proto.canonEnv envRev) s = Proto.envGet envRev s := by
+  have hn : ∀ b ∈ envRev, validName b.2.ty = true := by
+    intro b hb; simp [envRev] at hb; rcases hb with rfl | rfl <;> decide
+  refine ⟨?_, by decide, (proto_link_lookup { templateId := "t1", link := some "l", env := envRev } hn).2⟩
+  exact proto_link_roundtrip_anyorder s0.templates ["p1"] { templateId := "t1", link := some "l", env := envRev } hn
+    ⟨t1, by simp [s0, Proto.tlookup], by decide⟩ (by intro h; cases h) (by decide)
+    (by intro id h; cases h; simp [s0, Proto.tlookup])
 
 end Cedar.C06
